@@ -40,6 +40,7 @@ class World:
         self.notes = []          # free-form per-path annotations
         self.sym_inputs = {}     # name -> z3 term (for concretisation)
         self.len_axioms = set()
+        self._known_true = {}
         from . import sbytes as _sb
         _sb.CURRENT_WORLD[0] = self
 
@@ -69,6 +70,30 @@ class World:
             raise PathInfeasible()
         self.pc.append(cond)
         self.solver.add(cond)
+        m = self.last_model
+        if m is not None:
+            try:
+                if not z3.is_true(m.eval(cond, model_completion=True)):
+                    self.last_model = None
+            except z3.Z3Exception:
+                self.last_model = None
+
+    last_model = None
+
+    def _model_says(self, cond):
+        """Truth value of cond in the cached model of the path condition (None if unknown)."""
+        m = self.last_model
+        if m is None:
+            return None
+        try:
+            v = m.eval(cond, model_completion=True)
+        except z3.Z3Exception:
+            return None
+        if z3.is_true(v):
+            return True
+        if z3.is_false(v):
+            return False
+        return None
 
     def _check(self, *extra):
         t0 = time.time()
@@ -77,6 +102,11 @@ class World:
         self.stats.queries += 1
         if r == z3.unknown:
             raise Inconclusive("solver returned unknown: %s" % self.solver.reason_unknown())
+        if r == z3.sat:
+            try:
+                self.last_model = self.solver.model()
+            except z3.Z3Exception:
+                self.last_model = None
         return r == z3.sat
 
     def feasible(self, cond=None):
@@ -94,7 +124,15 @@ class World:
             return True
         if cond is False:
             return False
-        return not self._check(z3.Not(cond))
+        k = cond.get_id()
+        if k in self._known_true:
+            return True
+        if self._model_says(cond) is False:
+            return False
+        r = not self._check(z3.Not(cond))
+        if r:
+            self._known_true[k] = cond     # keep the term alive so that its id stays unique
+        return r
 
     # -- decisions
     # every nondeterministic choice and every symbolic branch appends (taken, alternatives, label);
@@ -140,8 +178,16 @@ class World:
             val = r == 0
             self.assume(cond if val else z3.Not(cond))
             return val
-        t = self._check(cond)
-        f = self._check(z3.Not(cond))
+        ms = self._model_says(cond)
+        if ms is True:
+            t = True
+            f = self._check(z3.Not(cond))
+        elif ms is False:
+            f = True
+            t = self._check(cond)
+        else:
+            t = self._check(cond)
+            f = self._check(z3.Not(cond))
         if t and f:
             self.decisions.append((0, (1,), label))
             self.stats.branches += 1
